@@ -28,6 +28,9 @@ type c09Case struct {
 	Flushers  int      `json:"flushers"`
 	StallMs   int      `json:"stall_ms"`
 	Procs     int      `json:"procs,omitempty"`
+	// FailAll: every Write / Close fails, so each flush goes through its cleanup
+	// path (Abort, TombstoneFile), which is where the gate then sits
+	FailAll string `json:"fail_all,omitempty"`
 }
 
 func genC09() *rapid.Generator[c09Case] {
@@ -44,7 +47,15 @@ func genC09() *rapid.Generator[c09Case] {
 			StallMs:   pick(t, "stall", []int{150, 300}),
 			Procs:     pick(t, "procs", []int{0, 2, 4}),
 		}
-		if chance(t, "overdue", 15) {
+		if chance(t, "cleanupstall", 25) {
+			// the flush fails persistently and the store stalls inside the cleanup
+			// of that failure: still a stalled flush, still one at a time
+			c.FailAll = pick(t, "failall", []string{"Close", "Write"})
+			c.Gate.Kind = pick(t, "cleanupgate", []string{"Abort", "Tombstone"})
+			c.Gate.N = unif(t, "cleanupn", 2)
+			c.Gate.All = true // the store is hung in that call kind: every such call stalls
+			c.BufTimeMs = 0
+		} else if chance(t, "overdue", 15) {
 			// time-triggered flushes of a partially filled buffer: producers
 			// trickle, MaxBufferedTime is short, and the stall lasts long enough
 			// for an unbounded actor to overtake the bound
@@ -80,7 +91,7 @@ func runC09Once(c c09Case) (accepted, answered, attempts, bound int, v *Violatio
 	ds := NewMemDataStore(false)
 	ms := bs.NewMemoryMetaStore()
 	tr := NewTrace(ds, ms)
-	ctl := NewStoreCtl(StoreScript{Gates: []GateSpec{c.Gate}})
+	ctl := NewStoreCtl(StoreScript{Gates: []GateSpec{c.Gate}, FailAll: c.FailAll})
 	tr.Before = ctl.Hook
 	eng, err := bs.NewBloomSearchEngine(cfg.Build(), tr, tr)
 	if err != nil {
@@ -236,7 +247,7 @@ func runC09(c c09Case) *Violation {
 }
 
 func TestC09(t *testing.T) {
-	Ev.Rule = "case = IngestBufferSize 1-8, MaxBufferedRows 1-5, 1-3 rows per batch, MaxBufferedTime 1h or 40 ms (shorter than the stall), the store stalled by a ctx-ignoring gate at the 1st/2nd CreateFile/Write/Close/Update for 150-300 ms, 1-6 producers hammering IngestRows with 5 ms ctx timeouts (optionally trickling), 0-2 goroutines calling Flush during the stall. Oracle: at the end of the stall accepted - answered <= IngestBufferSize + 4*ceil(MaxBufferedRows/rowsPerBatch) + 2 (confirmed by two re-executions); after release Stop returns nil and every accepted batch has exactly one answer. Non-trivial: producers attempted >= 3x the bound during the stall; distinct by case."
+	Ev.Rule = "case = IngestBufferSize 1-8, MaxBufferedRows 1-5, 1-3 rows per batch, MaxBufferedTime 1h or 40 ms (shorter than the stall), the store stalled by a ctx-ignoring gate at the 1st/2nd CreateFile/Write/Close/Update for 150-300 ms (or, in a quarter of the cases, every Write/Close failing and the gate inside the failed flush's cleanup: the 1st/2nd Abort/TombstoneFile), 1-6 producers hammering IngestRows with 5 ms ctx timeouts (optionally trickling), 0-2 goroutines calling Flush during the stall. Oracle: at the end of the stall accepted - answered <= IngestBufferSize + 4*ceil(MaxBufferedRows/rowsPerBatch) + 2 (confirmed by two re-executions); after release Stop returns nil and every accepted batch has exactly one answer. Non-trivial: producers attempted >= 3x the bound during the stall; distinct by case."
 	Ev.Assumptions = []string{"the bound is the harness's reading of 'ingest buffer size plus a few flushes' worth of batches': ingest queue + stalled flush + queued flush + the flush the actor is trying to enqueue, with slack"}
 	runChecks(t, "stalls", 60, 1500, genC09(), runC09)
 }
